@@ -512,7 +512,9 @@ def gen_parse_random(rng: random.Random) -> str:
 
 # object types; some names extend another by digits / a version suffix / an underscore: a declaration is for ITS type only
 OBJ = ["A", "B", "C", "A2", "A_v1", "B_", "Cv"]
-VAL = ["double", "float", "int", "bool", "unsigned int"]
+# the last ones are typedef names (ROOT's): a declared type is a NAME, it is written out as declared whatever it contains
+VAL = ["double", "float", "int", "bool", "unsigned int", "UInt_t", "ULong64_t", "Float_t", "Long64_t"]
+VAL_TYPEDEFS = "typedef unsigned int UInt_t; typedef unsigned long long ULong64_t; typedef float Float_t; typedef long long Long64_t;"
 METHODS = ["m0", "m1", "m2", "m3", "v"]
 ENUMS = [("xAOD.Jet", "Color", ["Red", "Blue"]), ("ns", "E", ["k0", "k1", "k2"]), ("a.b.c", "Kind", ["X"])]
 
@@ -730,7 +732,7 @@ def cxx_unit(backend: str, mds, loops: List[str], stmt: str, decl: str, undeclar
             return None
         ensure(ty)
         types[ty].setdefault(0, []).append(f"  double {m}(double = 0, double = 0);")
-    out = ["#include <vector>"]
+    out = ["#include <vector>", VAL_TYPEDEFS]
     for (ns, n), vals in d.enums.items():
         parts = ns.split(".")
         out.append(" ".join(f"namespace {q} {{" for q in parts) + f" enum {n} {{ {', '.join(vals)} }}; " + "}" * len(parts))
